@@ -491,6 +491,10 @@ func (e *Exec) unop(f *frame, x *ssa.UnOp, h *Heap, g string) (*Heap, string) {
 		out.Typ = x.Type()
 		if _, isSl := x.Type().Underlying().(*types.Slice); isSl && e.pure == 0 && out.A == nil {
 			e.wf(out)
+		} else if _, isNamed := x.Type().(*types.Named); isNamed && e.pure == 0 && e.specDepth == 0 {
+			if _, isStruct := x.Type().Underlying().(*types.Struct); isStruct {
+				e.wf(out)
+			}
 		}
 		e.set(f, x, out)
 	case token.NOT:
